@@ -126,33 +126,57 @@ theorem gap_isGap (g : Gap) : ∀ t ∈ Gap.toks g, isGapTok t = true := by
 theorem wgap_eq_gap (w : WGap) : WGap.toks w = Gap.toks (w.map GapTok.ws) := by
   simp [WGap.toks, Gap.toks, GapTok.tok]
 
-/-! ## `trim` -/
+/-! ## `clean` -/
 
-theorem dropWhile_gap_append (g : List Tok) (l : List Tok) (hg : ∀ t ∈ g, isGapTok t = true) :
-    (g ++ l).dropWhile isGapTok = l.dropWhile isGapTok := by
+theorem dropWhile_s_append (g : List Tok) (l : List Tok) (hg : ∀ t ∈ g, isS t = true) :
+    (g ++ l).dropWhile isS = l.dropWhile isS := by
   induction g with
   | nil => rfl
   | cons t ts ih =>
     simp only [List.cons_append, List.dropWhile_cons, hg t (by simp), ↓reduceIte]
     exact ih (fun x hx => hg x (by simp [hx]))
 
-/-- an opaque token list as the abstract sheet holds it: not empty, no white space / comment at either end -/
+/-- an opaque token list as the abstract sheet holds it: not empty, no comment tokens, no white space at
+either end -/
 structure Core (c : List Tok) : Prop where
-  head : ∃ t ts, c = t :: ts ∧ isGapTok t = false
-  last : ∃ ts t, c = ts ++ [t] ∧ isGapTok t = false
+  head : ∃ t ts, c = t :: ts ∧ isS t = false
+  last : ∃ ts t, c = ts ++ [t] ∧ isS t = false
 
-theorem trim_padded (pre post c : List Tok) (hpre : ∀ t ∈ pre, isGapTok t = true)
-    (hpost : ∀ t ∈ post, isGapTok t = true) (hc : Core c) : trim (pre ++ (c ++ post)) = c := by
+theorem Core.ne_of_strip {v : List Tok} (h : Core (strip v)) : v ≠ [] := by
+  intro hv
+  obtain ⟨t, ts, h1, _⟩ := h.head
+  simp [hv, strip] at h1
+
+theorem trimS_padded (pre post c : List Tok) (hpre : ∀ t ∈ pre, isS t = true)
+    (hpost : ∀ t ∈ post, isS t = true) (hc : Core c) : trimS (pre ++ (c ++ post)) = c := by
   obtain ⟨t, ts, h1, ht⟩ := hc.head
   obtain ⟨us, u, h2, hu⟩ := hc.last
-  unfold trim
-  rw [dropWhile_gap_append pre _ hpre]
-  have e1 : (c ++ post).dropWhile isGapTok = c ++ post := by
+  unfold trimS
+  rw [dropWhile_s_append pre _ hpre]
+  have e1 : (c ++ post).dropWhile isS = c ++ post := by
     rw [h1]; simp [List.dropWhile_cons, ht]
-  rw [e1, List.reverse_append, dropWhile_gap_append post.reverse _ (by simpa using hpost)]
-  have e2 : c.reverse.dropWhile isGapTok = c.reverse := by
+  rw [e1, List.reverse_append, dropWhile_s_append post.reverse _ (by simpa using hpost)]
+  have e2 : c.reverse.dropWhile isS = c.reverse := by
     rw [h2]; simp [List.dropWhile_cons, hu]
   rw [e2, List.reverse_reverse]
+
+theorem strip_gap_isS (g : List Tok) (hg : ∀ t ∈ g, isGapTok t = true) : ∀ t ∈ strip g, isS t = true := by
+  intro t ht
+  simp only [strip, List.mem_filter, notComment, bne_iff_ne, ne_eq] at ht
+  have := hg t ht.1
+  simp only [isGapTok, Bool.or_eq_true, beq_iff_eq] at this
+  rcases this with h | h
+  · simp [isS, h]
+  · exact absurd h ht.2
+
+/-- white space and comments around an opaque list disappear in the projection, and so do the comments
+inside it -/
+theorem clean_padded (pre post v : List Tok) (hpre : ∀ t ∈ pre, isGapTok t = true)
+    (hpost : ∀ t ∈ post, isGapTok t = true) (hc : Core (strip v)) : clean (pre ++ (v ++ post)) = strip v := by
+  unfold clean
+  have : strip (pre ++ (v ++ post)) = strip pre ++ (strip v ++ strip post) := by simp [strip]
+  rw [this]
+  exact trimS_padded _ _ _ (strip_gap_isS pre hpre) (strip_gap_isS post hpost) hc
 
 /-! ## names -/
 
@@ -369,7 +393,7 @@ theorem GapL.isGap {g : List Tok} (h : GapL g) : ∀ t ∈ g, isGapTok t = true 
 
 /-- an opaque value as the abstract sheet holds it: a core, well nested, no `;` / `!` at depth 0, no EOF -/
 structure ValueOk (v : List Tok) : Prop where
-  core : Core v
+  core : Core (strip v)
   quiet : Quiet .propvalue [] v = true
   bal : nest [] v = some []
 
@@ -405,8 +429,7 @@ theorem parseProperty_plain (O : Oracle) (n c : Tok) (G1 G2 v G3 : List Tok)
   have e2 : upto .propvalue none (G2 ++ (v ++ G3)) = (G2 ++ (v ++ G3), []) :=
     upto_none_nil .propvalue [] [] _ rfl hq2.1 hq2.2
   have e3 : upto .propprio none [] = ([], []) := by simp [upto, uptoLoop]
-  obtain ⟨vt, vts, hvc, _⟩ := hv.core.head
-  have hne : G2 ++ (v ++ G3) ≠ [] := by rw [hvc]; simp
+  have hne : G2 ++ (v ++ G3) ≠ [] := by simp [hv.core.ne_of_strip]
   obtain ⟨vlast, hlast⟩ : ∃ x, (G2 ++ (v ++ G3)).getLast? = some x := by
     cases h : (G2 ++ (v ++ G3)).getLast? with
     | none => exact absurd (List.getLast?_eq_none_iff.mp h) hne
@@ -507,7 +530,7 @@ theorem parseProperty_sdecl (O : Oracle) (d : SDecl) (h : d.WF O) : parsePropert
 
 theorem projItem_parsed (O : Oracle) (d : SDecl) (h : d.WF O) : projItem (.decl d.parsed) = some d.erase := by
   simp only [projItem, SDecl.parsed, SDecl.nameTok, identTok, SDecl.erase, Option.some.injEq]
-  rw [normalize_spell _ _ h.name, trim_padded _ _ _ (gapL_toks _).isGap (gapL_toks _).isGap h.value.core]
+  rw [normalize_spell _ _ h.name, clean_padded _ _ _ (gapL_toks _).isGap (gapL_toks _).isGap h.value.core]
   cases hp : d.prio with
   | none => rfl
   | some p => simp [normalize_spell _ _ (h.prio p hp)]
@@ -736,7 +759,7 @@ theorem parseDecls_block (O : Oracle) (b : SBlock) (h : b.WF O) :
 /-- one selector (a comma-separated group) as the abstract sheet holds it: a core, well nested, no `;`,
 `,` at depth 0, no braces, no EOF -/
 structure SelCoreOk (c : List Tok) : Prop where
-  core : Core c
+  core : Core (strip c)
   qd : QB .default c
   ql : Quiet .listsep [] c = true
   nb : noBrace c = true
@@ -845,9 +868,7 @@ theorem selGroupsFuel_render (more : List (Gap × List Tok × Gap)) (body : List
       have hne' : body ++ commaTok :: (padded p ++ renderMore rest) ≠ [] := by simp
       rw [selGroupsFuel_step f _ hne',
         upto_none_end .listsep [] [] body commaTok _ rfl hb.1 hb.2 commaTok_listsep.1 commaTok_listsep.2]
-      have hpne : padded p ≠ [] := by
-        obtain ⟨t, ts, hc, _⟩ := hp.core.head
-        simp [padded, hc]
+      have hpne : padded p ≠ [] := by simp [padded, hp.core.ne_of_strip]
       have hlen : (padded p ++ renderMore rest).length ≤ f := by
         simp only [List.length_append, List.length_cons] at hf ⊢
         have : 0 < body.length := List.length_pos_iff.mpr hne
@@ -855,17 +876,16 @@ theorem selGroupsFuel_render (more : List (Gap × List Tok × Gap)) (body : List
       rw [ih (padded p) f (padded_qb _ p hp.qbl) hpne (fun q hq => hm q (by simp [hq])) hlen]
       simp [commaTok, charTok]
 
-theorem selGroups_render (s : SSel) (h : s.WF) : (selGroups s.toks).map trim = s.erase := by
+theorem selGroups_render (s : SSel) (h : s.WF) : (selGroups s.toks).map clean = s.erase := by
   unfold selGroups
   rw [s.toks_eq, selGroupsFuel_render s.more _ _ (padded_qb _ _ h.first.qbl) _ h.more (Nat.le_refl _)]
   · simp only [List.map_cons, List.map_map, SSel.erase, List.cons.injEq]
     constructor
-    · exact trim_padded _ _ _ (gapL_toks _).isGap (gapL_toks _).isGap h.first.core
+    · exact clean_padded _ _ _ (gapL_toks _).isGap (gapL_toks _).isGap h.first.core
     · apply List.map_congr_left
       intro p hp
-      exact trim_padded _ _ _ (gapL_toks _).isGap (gapL_toks _).isGap (h.more p hp).core
-  · obtain ⟨t, ts, hc, _⟩ := h.first.core.head
-    simp [padded, hc]
+      exact clean_padded _ _ _ (gapL_toks _).isGap (gapL_toks _).isGap (h.more p hp).core
+  · simp [padded, h.first.core.ne_of_strip]
 
 /-! ## blocks are balanced -/
 
